@@ -14,6 +14,8 @@ usage: python3-vt -m sa.refuzz [whole|perfunc] [operator ...]      -> notes/refu
 from __future__ import annotations
 
 import ast
+
+from .astclone import clone as _clone
 import copy
 import json
 import os
@@ -63,14 +65,14 @@ def op_lc2loop(fn, counter):
                 m = {t: _fresh(t + "_lv", counter) for t in tnames}
                 acc = _fresh("acc", counter)
                 ren = _Ren(m)
-                tgt = ren.visit(copy.deepcopy(g.target))
+                tgt = ren.visit(_clone(g.target))
                 for n in ast.walk(tgt):
                     if isinstance(n, ast.Name):
                         n.ctx = ast.Store()
-                elt = ren.visit(copy.deepcopy(lc.elt))
+                elt = ren.visit(_clone(lc.elt))
                 inner = [ast.Expr(ast.Call(func=ast.Attribute(value=ast.Name(id=acc, ctx=ast.Load()), attr="append", ctx=ast.Load()), args=[elt], keywords=[]))]
                 for c in reversed(g.ifs):
-                    inner = [ast.If(test=ren.visit(copy.deepcopy(c)), body=inner, orelse=[])]
+                    inner = [ast.If(test=ren.visit(_clone(c)), body=inner, orelse=[])]
                 out.append(ast.Assign(targets=[ast.Name(id=acc, ctx=ast.Store())], value=ast.List(elts=[], ctx=ast.Load())))
                 out.append(ast.For(target=tgt, iter=g.iter, body=inner, orelse=[]))
                 out.append(ast.Assign(targets=st.targets, value=ast.Name(id=acc, ctx=ast.Load())))
@@ -98,7 +100,7 @@ def op_ifexp(fn, counter):
                     h.body = rewrite(h.body)
             if isinstance(st, ast.Assign) and len(st.targets) == 1 and isinstance(st.targets[0], (ast.Name, ast.Attribute)) and isinstance(st.value, ast.IfExp):
                 v = st.value
-                out.append(ast.If(test=v.test, body=[ast.Assign(targets=copy.deepcopy(st.targets), value=v.body)], orelse=[ast.Assign(targets=copy.deepcopy(st.targets), value=v.orelse)]))
+                out.append(ast.If(test=v.test, body=[ast.Assign(targets=_clone(st.targets), value=v.body)], orelse=[ast.Assign(targets=_clone(st.targets), value=v.orelse)]))
                 changed += 1
             elif isinstance(st, ast.Return) and isinstance(st.value, ast.IfExp):
                 v = st.value
